@@ -14,14 +14,17 @@ META = {
             "(pre-emption at every atomic op and futex call, virtual time); DSCHED-STUCK on a balanced program = deadlock / "
             "lost wakeup; small programs are compared with the exhaustively explored model (which also says when blocking "
             "for good is legitimate); the timed exclusive pop is checked against the virtual clock.",
-    "note": "PARTIAL: c02_no_deadlock_statement (balanced programs of blocking calls always have an enabled thread) is stated, "
-            "not proved: the wake protocol part is done (no lost wakeup + the waker is enabled), what is missing is the "
-            "client-level ticket accounting (every issued unpublished ticket is held; counters = elements of calls that "
-            "obtained tickets).  The step from 'no reachable deadlock' to termination under a fair scheduler is the standard "
-            "argument and is not mechanised.  c02_no_lost_wakeup assumes slot versions below 2^16 (fewer than 2^15 rounds): "
+    "note": "All statements are theorems, incl. c02_no_deadlock (balanced programs of blocking calls with one-sided threads "
+            "always have an enabled thread while a thread is unfinished; proved from the ticket accounting: every issued "
+            "ticket is published or held, counters = elements of the calls that obtained tickets).  The step from 'no "
+            "reachable deadlock' to termination under a fair scheduler is the standard argument and is not mechanised.  "
+            "c02_no_lost_wakeup / c02_no_deadlock assume slot versions below 2^16 (fewer than 2^15 rounds): "
+            ""
             "beyond that the 16-bit word comparison of the code admits the ABA 'waiter pre-empted for exactly 2^15 rounds'.  "
-            "Store-buffer (TSO) reorderings of the batch waker are covered by the seq_cst-fence obligation on the regenerated "
-            "site table, not executed.  Trusted base as C01.",
+            "Store-buffer (TSO) half: the waker/waiter skeleton with the fences regenerated from the site tables is checked on "
+            "the explicit store-buffer machine of coq/WM for every execution (c02_wake_batch_tso, c02_wake_single_tso; a "
+            "weakened fence gives a wm- violation whose replay is the store-buffer schedule); the skeleton abstracts one slot, "
+            "one waker, one waiter.  Trusted base as C01 plus coq/WM/TSO.v as the definition of TSO.",
 }
 
 
